@@ -19,9 +19,9 @@ def register(db):
         params={"self": f"obj:{CONV}:BoolConverter", "value": "str"},
         ghost={"w1": "str", "t": "str", "w2": "str"},
         kwargs={"known": {}, "open": False},
-        requires=[f"matches(w1, '{XSD_WS}')", f"matches(w2, '{XSD_WS}')", "t == 'true' or t == 'false' or t == '1' or t == '0'",
+        requires=[f"matches(w1, '{XSD_WS}')", f"matches(w2, '{XSD_WS}')", "matches(t, 'true|false|1|0')",
                   "value == w1 + t + w2"],
-        hints=["strip_padded(value, w1, t, w2, 'true|false|1|0')"],
+        hints=[f"strip_padded(value, w1, '{XSD_WS}', w2, t, 'true|false|1|0')"],
         ensures=[("xsd-value", "result == (t == 'true' or t == '1')")],
         raises={}, returns="bool", properties=P + ["C09"],
     ))
@@ -65,7 +65,8 @@ def register(db):
             kwargs={"known": {}, "open": False},
             requires=[f"matches(w1, '{XSD_WS}')", f"matches(w2, '{XSD_WS}')",
                       "matches(d, '[0-9]+')", f"value == w1 + {sg!r} + d + w2"],
-            hints=[f"strip_padded(value, w1, {sg!r} + d, w2, '[+-]?[0-9]+')", f"int_of_signed(py_strip(value), {sg!r}, d)"],
+            hints=[(f"strip_padded(value, w1, '{XSD_WS}', w2, {sg!r}, None, d, '[0-9]+')" if sg else f"strip_padded(value, w1, '{XSD_WS}', w2, d, '[0-9]+')"),
+                   f"int_of_signed(py_strip(value), {sg!r}, d)"],
             ensures=[("xsd-value", "result == " + ("-nat(d)" if sg == "-" else "nat(d)"))],
             raises={}, returns="int", properties=P + ["C09"],
         ))
